@@ -151,6 +151,15 @@ def r1_table_subset_of_isa(ctx: Ctx) -> None:
     if len(rets) == 1 and rets[0].value is not None:
         pc = pack_call(rets[0].value)
         good = pc is not None and pc[0].size == 1 and pc[0].fields[0][0] == "B" and len(pc[1]) == 1 and unparse(pc[1][0]) == "self.opcode"
+        if not good:
+            # the same single byte in another spelling: bytes([self.opcode]) / self.opcode.to_bytes(1, ..) (byte-level normal form)
+            from ..match import packed_bytes as _pb
+
+            try:
+                bs = _pb(rets[0].value)
+                good = len(bs) == 1 and bs[0].source == "self.opcode" and bs[0].bit == 0
+            except AnalysisError:
+                good = False
     ctx.check(good, "OpcodeWithoutOperand.emit", "returns exactly the one opcode byte")
     # no function mutates the table (shared with C19): any subscript-store / del / mutator on snes_opcode_table
     for fn in ctx.repo.all_functions():
@@ -451,6 +460,13 @@ def r5_shape_to_mode(ctx: Ctx) -> None:
         for st in body:
             if isinstance(st, ast.If):
                 g = _accept_guard(st.test)
+                # the re-parse arm of `(expr) <operator>`: reached through the SyntaxError handler in the confirmed layout, or directly under the
+                # test for an operator after the closing parenthesis
+                if g is None and isinstance(st.test, ast.Call) and call_name(st.test) == "accept_token" and len(st.test.args) == 2 \
+                        and (dotted(st.test.args[1]) or "") == "TokenType.OPERATOR" and unparse(st.test.args[0]) in ("p.peek()", "p.current()"):
+                    visit(st.body, frozenset(guards | {("handler", True)}))
+                    visit(st.orelse, guards)
+                    continue
                 visit(st.body, frozenset(guards | {(g, True)}) if g else guards)
                 is_elif = len(st.orelse) == 1 and isinstance(st.orelse[0], ast.If)
                 # an elif arm tests another token: the negative of this test adds nothing to the shape fact
@@ -633,7 +649,7 @@ def r6_rejection_discipline(ctx: Ctx) -> None:
             if holders and any(f"{h} is not None" in unparse(x) or f"{h} is None" in unparse(x) for h in holders for x in ast.walk(ge.node) if isinstance(x, (ast.IfExp, ast.If))):
                 guarded_gets.append(c)
                 continue
-        ctx.fail(f"_get_emitter:{unparse(c)[:50]}", "a defaulting lookup replaces a rejecting subscript")
+        ctx.fail(f"_get_emitter:{unparse(c)[:50]}", "a defaulting lookup replaces a rejecting subscript", fact=True)
     if guarded_gets and len(guarded_gets) == len(gets):
         raise AnalysisError("OpcodeNode._get_emitter: lookups are spelled `.get()` + `is None` + raise; the rejection layout is not modelled")
     ctx.check("snes_opcode_table[self.opcode][self.addressing_mode]" in texts, "_get_emitter:mode-lookup",
@@ -713,6 +729,8 @@ def r7_field_plumbing(ctx: Ctx) -> None:
     for c in ctors:
         kw = {k.arg: unparse(inline(k.value, env)) for k in c.keywords}
         first = unparse(inline(c.args[0], env)) if c.args else None
+        if kw.get("index") == "None":
+            del kw["index"]  # index=None spells the constructor's default: the same as leaving the keyword out
         tag = "none" if "value_node" not in kw else ("indexed" if "index" in kw else "plain")
         ctx.check(first == "node.opcode" and kw.get("addressing_mode") == "node.addressing_mode", f"generate_opcode[{tag}]:mnemonic+mode", f"OpcodeNode({first}, addressing_mode={kw.get('addressing_mode')})")
         if tag != "none":
@@ -755,12 +773,14 @@ def r7_field_plumbing(ctx: Ctx) -> None:
 def r8_lexer_token_facts(ctx: Ctx) -> None:
     lo = ctx.repo.func("a816.parse.scanner_states", "lex_operand")
     pairs: dict[str, str] = {}
+    peeked = {unparse(a.targets[0]) for a in walk_no_nested(lo.node) if isinstance(a, ast.Assign) and len(a.targets) == 1 and unparse(a.value) == "s.peek()"}
     for st in walk_no_nested(lo.node):
         if isinstance(st, ast.If):
             arms, _ = if_chain(st)
             for test, body in arms:
                 t = eq_const_test(test)
-                if t and t[0] == "p" and isinstance(t[1], str):
+                # the tested expression is the next character: `s.peek()` itself or a local holding it
+                if t and isinstance(t[1], str) and (t[0] in peeked or t[0] == "s.peek()"):
                     emits = [(dotted(c.args[0]) or "").split(".")[-1] for b in body for c in calls_in(b) if call_name(c) == "s.emit"]
                     consumes = any(call_name(c) == "s.next" for b in body for c in calls_in(b))
                     if emits and consumes:
@@ -825,5 +845,12 @@ def r9_mnemonic_recognition(ctx: Ctx) -> None:
     mnemonic_followers(ctx)
 
 
+def r10_branch_displacement_byte(ctx: Ctx) -> None:
+    """a relative branch is its opcode followed by the true signed displacement byte, or it is rejected: never a wrapped byte (shared with C05.R1)"""
+    from .c05 import r1_no_truncation
+
+    r1_no_truncation(ctx)
+
+
 RULES = [r1_table_subset_of_isa, r2_supported_set_kept, r3_operand_packing, r4_width_selection, r5_shape_to_mode,
-         r6_rejection_discipline, r7_field_plumbing, r8_lexer_token_facts, r9_mnemonic_recognition, rb_binding_agreement, rm_no_process_lifetime_results, ru_names_bound]
+         r6_rejection_discipline, r7_field_plumbing, r8_lexer_token_facts, r9_mnemonic_recognition, r10_branch_displacement_byte, rb_binding_agreement, rm_no_process_lifetime_results, ru_names_bound]
